@@ -305,7 +305,7 @@ def judgeRec (kind : String) (x : Sequence) (tail : List String) : Verdict :=
       cls := (if triv then "triv:" else "") ++ kind ++ "/feat" ++ sizeTag x.features.length ++ "/ref" ++ sizeTag x.metadata.references.length
              ++ "/other" ++ sizeTag x.metadata.other.length ++ (if wraps then "/wrap" else "") ++ (if cached then "/cached" else "")
              ++ (if structural then "/structural" else "") ++ (if rtDom then "/rt" else if layoutDom then "/layout-only" else "/out")
-             ++ (if thmDom then "/thm" else "")
+             ++ (if thmDom then "/thm" else "") ++ (if wfLayoutG x then "/lay" else "")
              ++ (if Spec.GbRoundTrip.covered x then "/pb" else "")
              ++ (if x.sequence.length > 10000 then "/long" else "") ++ reg ++ kf,
       detail := why }
